@@ -8,18 +8,22 @@ contract("monkeytype.compat:types_equal", props=["C04"], theories=TH,
          ensures={"post:def": "result == (typ is other_type)"},
          note="the logic identifies ==-equal typing objects (unions as sets, TypedDicts by fields)")
 
-contract("monkeytype.compat:name_of_generic", props=["C04", "C07"], theories=TH, mode="assumed",
+_NAMED = "(" + " or ".join("kind(typ) is K_%s" % k for k in ("List", "Set", "Dict", "DefaultDict", "Tuple", "TupleVar", "Type", "Iterator", "Generator", "Callable", "Union")) + ")"
+contract("monkeytype.compat:name_of_generic", props=["C04", "C07"], theories=TH + ["enc", "cli", "path"],
          params={"typ": "Ty"}, result="str",
-         ensures={"post:def": "result is gname(typ)"},
-         note="reads typing internals (_name, __origin__._name); validated by runtime/validate_theories.py")
+         requires={"named-generic": _NAMED},
+         # (a two-member union with None is *named* "Optional" by typing; every caller tests is_union first or only compares with a container name)
+         ensures={"post:def": "implies(kind(typ) is not K_Union, result is gname(typ))",
+                  "post:union": "implies(kind(typ) is K_Union, result == 'Union' or result == 'Optional')"},
+         note="typing generics carry their name in `_name` (T-ENC tname axioms, validated by the bounded tier)")
 
 contract("monkeytype.typing:is_list", props=["C04"], theories=TH,
          params={"typ": "Ty"}, result="bool",
          requires={"wf": "wf_ty(typ)"},
          ensures={"post:def": "result == (kind(typ) is K_List)"})
 
-contract("monkeytype.typing:make_typed_dict", props=["C04", "C06", "C07"], theories=TH,
-         params={"required_fields": "Opt[Dict[str,Ty]]", "optional_fields": "Opt[Dict[str,Ty]]"}, result="Ty", mode="assumed",
+contract("monkeytype.typing:make_typed_dict", props=["C04", "C06", "C07"], theories=TH + ["enc", "cli", "path"],
+         params={"required_fields": "Opt[Dict[str,Ty]]", "optional_fields": "Opt[Dict[str,Ty]]"}, result="Ty",
          # the function asserts that required and optional keys are disjoint
          requires={"disjoint": "required_fields is None or optional_fields is None or forall(required_fields, lambda key: not has(optional_fields, key))"},
          ensures={"post:def": "result is TD_(ite(required_fields is None or len(required_fields) == 0, EMPTY_DICT_, required_fields),"
@@ -29,10 +33,18 @@ contract("monkeytype.typing:make_typed_dict", props=["C04", "C06", "C07"], theor
 # monkeytype.typing:field_annotations reads __annotations__ of the two nested TypedDicts make_typed_dict builds: it is
 # modelled by the theory observers td_req / td_opt (theories/types.py, assumed; validated by the bounded tier).
 
-contract("monkeytype.typing:is_anonymous_typed_dict", props=["C04", "C06", "C07"], theories=TH, mode="assumed",
+contract("monkeytype.typing:is_anonymous_typed_dict", props=["C04", "C06", "C07"], theories=TH + ["enc", "cli", "path"],
          params={"typ": "Ty"}, result="bool",
+         requires={"no-foreign-td": "kind(typ) is not K_NamedTD"},
          ensures={"post:def": "result == (kind(typ) is K_TD)"},
-         note="is_typed_dict(typ) and typ.__name__ == DUMMY_NAME; kind TD is defined as exactly that (T-TYPES)")
+         note="kind TD is defined (T-ENC td-kind) as: a TypedDict class named DUMMY_NAME with the make_typed_dict shape; the precondition excludes other TypedDict classes"
+              " (in particular a foreign TypedDict that happens to be called DUMMY_NAME)")
+
+contract("monkeytype.typing:field_annotations", props=["C04", "C05", "C06"], theories=TH + ["enc", "cli", "path"],
+         params={"typed_dict": "Ty"}, result="raw",
+         requires={"anonymous": "kind(typed_dict) is K_TD"},
+         ensures={"post:req": "result[0] is td_req(typed_dict)", "post:opt": "result[1] is td_opt(typed_dict)"},
+         note="callers use the T-TYPES observers td_req / td_opt directly (theories/types.py _field_annotations); this contract proves that the real body computes them")
 
 _SUP = "forall(types, lambda t: forall_val(lambda v: implies(mem(v, t), mem(v, result))))"
 _REQ = "td_req(nth(typed_dicts, {j}))"
